@@ -99,7 +99,8 @@ class _Continue(Exception):
     pass
 
 
-_BUILTIN_TYPES = {"bytes": bytes, "int": int, "str": str, "list": list, "tuple": tuple, "dict": dict, "bool": bool, "bytearray": bytearray}
+_BUILTIN_TYPES = {"bytes": bytes, "int": int, "str": str, "list": list, "tuple": tuple, "dict": dict, "bool": bool, "bytearray": bytearray, "set": set, "frozenset": frozenset,
+                  "float": float, "type": type, "object": object, "memoryview": memoryview}
 _CMP = {
     ast.Eq: lambda a, b: a == b, ast.NotEq: lambda a, b: a != b, ast.Lt: lambda a, b: a < b, ast.LtE: lambda a, b: a <= b,
     ast.Gt: lambda a, b: a > b, ast.GtE: lambda a, b: a >= b, ast.In: lambda a, b: a in b, ast.NotIn: lambda a, b: a not in b,
@@ -112,6 +113,9 @@ _BIN = {
 }
 import hashlib as _hl
 import hmac as _hm
+import base64 as _b64
+import binascii as _ba
+import functools as _ft
 import itertools as _it
 import re as _re
 
@@ -157,9 +161,16 @@ class Evaluator:
                           "hashlib": Namespace(sha256=_hl.sha256, sha1=_hl.sha1, sha512=_hl.sha512, new=_hl.new, pbkdf2_hmac=_hl.pbkdf2_hmac),
                           "hmac": Namespace(new=_hm.new, compare_digest=_hm.compare_digest, digest=_hm.digest),
                           "itertools": Namespace(accumulate=_lz(_it.accumulate), chain=_lz(_it.chain), combinations=_lz(_it.combinations), permutations=_lz(_it.permutations),
-                                                 product=_lz(_it.product), islice=_lz(_it.islice), zip_longest=_lz(_it.zip_longest), repeat=_it.repeat, count=_it.count),
+                                                 product=_lz(_it.product), islice=_lz(_it.islice), zip_longest=_lz(_it.zip_longest), repeat=_it.repeat, count=_it.count,
+                                                 takewhile=_lz(_it.takewhile), dropwhile=_lz(_it.dropwhile), starmap=_lz(_it.starmap)),
                           "accumulate": _lz(_it.accumulate), "chain": _lz(_it.chain), "combinations": _lz(_it.combinations), "permutations": _lz(_it.permutations),
-                          "product": _lz(_it.product), "islice": _lz(_it.islice), "zip_longest": _lz(_it.zip_longest),
+                          "product": _lz(_it.product), "islice": _lz(_it.islice), "zip_longest": _lz(_it.zip_longest), "count": _it.count, "repeat": _it.repeat,
+                          "takewhile": _lz(_it.takewhile), "dropwhile": _lz(_it.dropwhile), "starmap": _lz(_it.starmap),
+                          "a2b_base64": _ba.a2b_base64, "b2a_base64": _ba.b2a_base64, "hexlify": _ba.hexlify, "unhexlify": _ba.unhexlify,
+                          "b64encode": _b64.b64encode, "b64decode": _b64.b64decode,
+                          "binascii": Namespace(a2b_base64=_ba.a2b_base64, b2a_base64=_ba.b2a_base64, hexlify=_ba.hexlify, unhexlify=_ba.unhexlify),
+                          "base64": Namespace(b64encode=_b64.b64encode, b64decode=_b64.b64decode),
+                          "functools": Namespace(reduce=_ft.reduce, partial=_ft.partial), "reduce": _ft.reduce, "partial": _ft.partial,
                           "re": Namespace(compile=_re.compile, match=_re.match, fullmatch=_re.fullmatch, search=_re.search, findall=_re.findall, sub=_re.sub, split=_re.split,
                                           IGNORECASE=_re.IGNORECASE, I=_re.I)}
         self.externals.update(externals or {})
@@ -850,12 +861,17 @@ class Evaluator:
                     raise
                 return True if nm == "hasattr" else v
             if nm in ("len", "int", "bytes", "str", "bool", "list", "tuple", "sorted", "min", "max", "sum", "abs", "range", "reversed", "any", "all",
-                      "enumerate", "zip", "hex", "ord", "chr", "divmod", "set", "bytearray", "dict", "pow", "bin", "oct", "round", "repr"):
+                      "enumerate", "zip", "hex", "ord", "chr", "divmod", "set", "bytearray", "dict", "pow", "bin", "oct", "round", "repr", "map", "filter", "frozenset", "float",
+                      "callable", "id", "memoryview"):
                 args = [self._expr(a, env, mod, cls) for a in e.args]
                 kw = self._kwargs(e, env, mod, cls)
                 for k_ in ("key",):
                     if k_ in kw and isinstance(kw[k_], tuple) and kw[k_] and kw[k_][0] in ("closure", "func", "method", "pyfunc"):
                         kw[k_] = (lambda fv: (lambda *a_: self._apply(fv, list(a_), {}, e)))(kw[k_])
+                if nm in ("map", "filter") and args and isinstance(args[0], tuple) and args[0] and args[0][0] in ("closure", "func", "method", "pyfunc"):
+                    args[0] = (lambda fv: (lambda *a_: self._apply(fv, list(a_), {}, e)))(args[0])
+                elif nm in ("map", "filter") and args and isinstance(args[0], ClassRef):
+                    raise Undecided("%s over a class" % nm)
                 if nm in ("len", "bool") and len(args) == 1 and isinstance(args[0], Obj) and args[0].mod != "builtins":
                     ok, r = self._obj_method(args[0], "__len__" if nm == "len" else "__bool__", [])
                     if ok:
@@ -875,7 +891,7 @@ class Evaluator:
                     raise Raised("ValueError", e)
                 except OverflowError:
                     raise Raised("OverflowError", e)
-                if nm in ("reversed", "enumerate", "zip"):
+                if nm in ("reversed", "enumerate", "zip", "map", "filter"):
                     r = list(r)
                 return r
         f = self._expr(e.func, env, mod, cls)
@@ -937,6 +953,10 @@ class Evaluator:
                     raise Raised("error", e)
                 raise
         if isinstance(f, tuple) and f and f[0] == "pymethod":
+            wrap = lambda v_: (lambda *a_: self._apply(v_, list(a_), {}, e)) if isinstance(v_, tuple) and v_ and v_[0] in ("closure", "func", "method") else (
+                v_[1] if isinstance(v_, tuple) and len(v_) == 2 and v_[0] == "pyfunc" else v_)
+            args = [wrap(a_) for a_ in args]
+            kw = {k_: wrap(v_) for k_, v_ in kw.items()}
             try:
                 r_ = getattr(f[1], f[2])(*args, **kw)
                 if isinstance(f[1], dict) and f[2] in ("keys", "values", "items"):
